@@ -73,6 +73,7 @@ func (r *EngineRunner) flipSweep(cfg []string, maxFlips int, rng *Rng) string {
 	}
 	// everything ever written, per key (from the undamaged log itself)
 	allowed := map[string][][]byte{}
+	starts := map[string][]int{} // where the records of each data file begin
 	for _, n := range names {
 		if !strings.HasSuffix(n, string(datafile.DataFileSuffix)) || strings.HasPrefix(n, "M/") {
 			continue
@@ -85,7 +86,10 @@ func (r *EngineRunner) flipSweep(cfg []string, maxFlips int, rng *Rng) string {
 		}
 		rd := df.NewReader()
 		for {
-			rec, _, err := rd.NextLogRecord()
+			rec, rp, err := rd.NextLogRecord()
+			if err == nil && rp != nil {
+				starts[n] = append(starts[n], int(rp.BlockID)*32768+int(rp.Offset))
+			}
 			if err != nil {
 				if err != io.EOF && err != io.ErrUnexpectedEOF {
 					r.fail("C12", "the undamaged directory does not scan: %v", err)
@@ -102,13 +106,14 @@ func (r *EngineRunner) flipSweep(cfg []string, maxFlips int, rng *Rng) string {
 		name string
 		off  int
 		mask byte // 0: the file is truncated to off bytes instead
+		put  bool // (truncation while open) the engine then writes one more record and is inspected again
 	}
 	var flips []flip
 	if total*8 <= maxFlips {
 		for _, n := range names {
 			for off := range files[n] {
 				for bit := 0; bit < 8; bit++ {
-					flips = append(flips, flip{n, off, 1 << uint(bit)})
+					flips = append(flips, flip{n, off, 1 << uint(bit), false})
 				}
 			}
 		}
@@ -118,7 +123,7 @@ func (r *EngineRunner) flipSweep(cfg []string, maxFlips int, rng *Rng) string {
 			if len(files[n]) == 0 {
 				continue
 			}
-			flips = append(flips, flip{n, rng.Intn(len(files[n])), 1 << uint(rng.Intn(8))})
+			flips = append(flips, flip{n, rng.Intn(len(files[n])), 1 << uint(rng.Intn(8)), false})
 		}
 	}
 	// truncations: every data file cut at a few lengths (inside the last record, at a record boundary,
@@ -130,7 +135,21 @@ func (r *EngineRunner) flipSweep(cfg []string, maxFlips int, rng *Rng) string {
 		}
 		sz := len(files[n])
 		for _, cut := range []int{sz - 1, sz / 2, rng.Intn(sz), rng.Intn(sz)} {
-			flips = append(flips, flip{n, cut, 0})
+			flips = append(flips, flip{n, cut, 0, false})
+			truncs++
+		}
+	}
+	// the newest data file loses its last one to three whole records under the open database, which then appends one
+	// more record (through O_APPEND it lands at the cut, while the engine's own position lies behind it)
+	newest := ""
+	for _, n := range names {
+		if strings.HasSuffix(n, string(datafile.DataFileSuffix)) && !strings.HasPrefix(n, "M/") && n > newest {
+			newest = n
+		}
+	}
+	if st := starts[newest]; len(st) > 0 {
+		for j := len(st) - 1; j >= 0 && j >= len(st)-3; j-- {
+			flips = append(flips, flip{newest, st[j], 0, true})
 			truncs++
 		}
 	}
@@ -196,7 +215,7 @@ func (r *EngineRunner) flipSweep(cfg []string, maxFlips int, rng *Rng) string {
 		}
 		// every third flip is applied while the database is open (the bytes change under a running engine);
 		// the others damage the closed directory before Open
-		whileOpen := fi%3 == 2
+		whileOpen := fi%3 == 2 || fl.put
 		for _, n := range names {
 			b := files[n]
 			if n == fl.name && !whileOpen {
@@ -257,6 +276,17 @@ func (r *EngineRunner) flipSweep(cfg []string, maxFlips int, rng *Rng) string {
 				}
 			}
 			inspect(db, what)
+			if fl.put {
+				nk := []byte("zz-written-after-the-cut")
+				nv := bytes.Repeat([]byte{0xc3}, 1+rng.Intn(40))
+				if err := db.Put(nk, nv); err == nil {
+					allowed[string(nk)] = append(allowed[string(nk)], nv)
+					inspect(db, what+", then one more Put")
+					delete(allowed, string(nk))
+				}
+				_ = db.Close()
+				return
+			}
 			if whileOpen && fi%2 == 1 {
 				// the damaged database merges, is closed and opened again: a merge must not launder the damage
 				// (rewrite damaged bytes under a fresh checksum); it may fail, and the Open after it may fail
